@@ -196,7 +196,12 @@ def run(ctx):
                      "drain": 5.0, "max_points": 6000, "free_switch_cost": 1},
             "budget": 4000 if ctx.quick else 60000,
         })
-    ctx.pmap(H.shard, specs)
+    if not ctx.quick:
+        specs += H.line_variants(
+            specs, lambda p: (p.get("second") or p["failing"][3] in ("outside", "from:trio"))
+            and p["failing"][1] in (("raise", "LookupError"), ("return", "0"), ("return", "''"))
+            and p.get("bystanders") in ("none", "sleepers"))
+    ctx.pmap(H.shard, specs, cost=lambda s: s["opts"].get("line_points", False))
     H.finish(
         ctx, specs,
         rule="scenario product (flavour x failure kind x registration; instants x bystanders; "
@@ -205,7 +210,9 @@ def run(ctx):
              "more than one schedule of it was executed",
         bounds={"deviation_bound": bound,
                 "double_failure_bound": bound + (1 if ctx.quick else 0),
-                "granularity": "synchronisation operations"},
+                "granularity": "synchronisation operations" + (
+                    "" if ctx.quick else "; source lines of the runner package at bound 1 for "
+                    "the outside / cross-flavour / double-failure scenarios")},
         assumptions=["a payload raising its own framework's cancellation exception is not "
                      "driven"],
     )
